@@ -193,8 +193,22 @@ def oracle(case):
                   {k: [key_of(t) for t in v] for k, v in s.relations(*ts).items()})
             got = [key_of(t) for t in s.get_related(*ts)]
             check(f'sense.get_related({tl})', _ms([r.tgt.key for r in rels]), got)
-            got = [key_of(t) for t in s.get_related_synsets(*ts)]
+            tgts = s.get_related_synsets(*ts)
+            got = [key_of(t) for t in tgts]
             check(f'sense.get_related_synsets({tl})', _ms([r.tgt.key for r in srels]), got)
+            if not ts:
+                # second hop: a synset / sense obtained as a relation target answers its own
+                # relation queries within the same scope
+                for t in tgts:
+                    rt = _ref_synset(ref, key_of(t))
+                    if rt is not None:
+                        check('second-hop:sense.get_related_synsets->synset.relation_map',
+                              view.synset_obs(rt)['relation_map'], observe.relmap_obs(t))
+                for t in s.get_related():
+                    rt = _ref_sense(ref, key_of(t))
+                    if rt is not None:
+                        check('second-hop:sense.get_related->sense.relation_map',
+                              view.sense_obs(rt)['relation_map'], observe.relmap_obs(t))
             _closure_and_paths(view, db.sense_rels, rs, s, names, ts, out)
     # --- synsets
     for rss in view.synsets():
@@ -220,10 +234,33 @@ def oracle(case):
             check(f'synset.relations({tl})',
                   view._by_name([(r.name, r.tgt.key) for r in rels]),
                   {k: [key_of(t) for t in v] for k, v in ss.relations(*ts).items()})
+            tgts = ss.get_related(*ts)
             check(f'synset.get_related({tl})', _ms([r.tgt.key for r in rels]),
-                  [key_of(t) for t in ss.get_related(*ts)])
+                  [key_of(t) for t in tgts])
+            if not ts:
+                for t in tgts:
+                    rt = _ref_synset(ref, key_of(t))
+                    if rt is not None:
+                        check('second-hop:synset.get_related->synset.relation_map',
+                              view.synset_obs(rt)['relation_map'], observe.relmap_obs(t))
             _closure_and_paths(view, db.synset_rels, rss, ss, names, ts, out)
     return out
+
+
+def _ref_synset(ref, key):
+    if not isinstance(key, str):
+        return None
+    spec, _, sid = key.partition('|')
+    L = ref.get(spec)
+    return L.synsets.get(sid) if L else None
+
+
+def _ref_sense(ref, key):
+    if not isinstance(key, str):
+        return None
+    spec, _, sid = key.partition('|')
+    L = ref.get(spec)
+    return L.senses.get(sid) if L else None
 
 
 def _closure_and_paths(view, table, rent, ent, names, ts, out):
